@@ -32,7 +32,6 @@ import json
 import linecache
 import os
 import random
-import re
 import sys
 import tokenize
 import types
@@ -75,13 +74,13 @@ ASSUMPTIONS = [
     "'suppressed nothing' is decided on what was observed: no diagnostic of D(P) is missing from D(P + comment)",
     "diagnostics produced after check() returns (ClassAttributeChecker) are not observable through harness.run except on the CLI route",
 ]
-FLOORS = {
-    "quick": {"distinct_nontrivial": 18000, "programs": 150, "disable_cases": 12000, "disable_cases_nontrivial": 11000,
-              "comment_cases": 19000, "comment_cases_target_has_diag": 3500, "comment_suppressed_something": 4000,
-              "eof_own_line_cases": 450, "file_level_bare_cases": 150, "fresh_checker_configs": 500, "cli_runs": 24},
-    "thorough": {"distinct_nontrivial": 95000, "programs": 800, "disable_cases": 65000, "disable_cases_nontrivial": 60000,
-                 "comment_cases": 100000, "comment_cases_target_has_diag": 19000, "comment_suppressed_something": 21000,
-                 "eof_own_line_cases": 2400, "file_level_bare_cases": 800, "fresh_checker_configs": 4500, "cli_runs": 70},
+FLOORS = {   # ~50 % of what the unchanged tree yields (quick: 304 programs, thorough: 1600)
+    "quick": {"distinct_nontrivial": 19500, "programs": 150, "disable_cases": 13500, "disable_cases_nontrivial": 13000,
+              "comment_cases": 19500, "comment_cases_target_has_diag": 3600, "comment_suppressed_something": 4100,
+              "eof_own_line_cases": 450, "file_level_bare_cases": 170, "fresh_checker_configs": 580, "cli_runs": 24},
+    "thorough": {"distinct_nontrivial": 105000, "programs": 800, "disable_cases": 75000, "disable_cases_nontrivial": 72000,
+                 "comment_cases": 105000, "comment_cases_target_has_diag": 19000, "comment_suppressed_something": 21500,
+                 "eof_own_line_cases": 2400, "file_level_bare_cases": 880, "fresh_checker_configs": 4800, "cli_runs": 72},
 }
 LEVEL_TEXT = (
     "held-on-explored: every (program, S, route) and every admissible comment placement of the generated programs was "
